@@ -202,7 +202,14 @@ func (s *State) loadHeap(comp string, ref *Term, typ types.Type) Value {
 		arr := Select(s.heapComp(comp+"@arr", SArr(SInt, SArr(SInt, es))), ref)
 		return &ArrayVal{Arr: arr, N: u.Len(), Elem: u.Elem()}
 	default:
-		t := Select(s.heapComp(comp, SArr(SInt, sortOfType(typ))), ref)
+		_, had := s.Heap[shortKey(comp)]
+		hc := s.heapComp(comp, SArr(SInt, sortOfType(typ)))
+		if _, isPtr := typ.Underlying().(*types.Pointer); isPtr && !had && strings.HasPrefix(hc.Op, "H0.") {
+			// the entry heap holds no pointer to an object this function allocates later
+			r := Atom("q_r", SInt)
+			s.Assume(Forall([]*Term{r}, Lt(Select(hc, r), IntLit(objBase))))
+		}
+		t := Select(hc, ref)
 		return s.unreify(t, typ)
 	}
 }
